@@ -29,6 +29,9 @@ package main
 
 import (
 	"bytes"
+	"crypto/sha1"
+	"encoding/hex"
+	"go/printer"
 	"fmt"
 	"go/ast"
 	"go/parser"
@@ -116,10 +119,28 @@ func funcKey(dir, file string, fd *ast.FuncDecl) string {
 	return rel + ":" + recv + "." + fd.Name.Name
 }
 
-// listFuncKeys parses the module and returns the key of every declared function.
-func listFuncKeys(dir string, overlay map[string][]byte) []string {
+// bodyHash fingerprints a function body (comments and layout do not count). Trivial
+// bodies get no fingerprint: they are too easy to match by accident.
+func bodyHash(fset *token.FileSet, fd *ast.FuncDecl) string {
+	if fd.Body == nil {
+		return ""
+	}
+	var buf bytes.Buffer
+	if err := printer.Fprint(&buf, fset, fd.Body); err != nil {
+		return ""
+	}
+	txt := strings.Join(strings.Fields(buf.String()), " ")
+	if len(txt) < 60 {
+		return ""
+	}
+	sum := sha1.Sum([]byte(txt))
+	return hex.EncodeToString(sum[:6])
+}
+
+// listFuncs parses the module and returns key -> body fingerprint of every declared function.
+func listFuncs(dir string, overlay map[string][]byte) map[string]string {
 	fset := token.NewFileSet()
-	var keys []string
+	out := map[string]string{}
 	for _, p := range moduleGoFiles(dir, overlay) {
 		var src any
 		if b, ok := overlay[p]; ok {
@@ -131,12 +152,43 @@ func listFuncKeys(dir string, overlay map[string][]byte) []string {
 		}
 		for _, d := range f.Decls {
 			if fd, ok := d.(*ast.FuncDecl); ok {
-				keys = append(keys, funcKey(dir, p, fd))
+				out[funcKey(dir, p, fd)] = bodyHash(fset, fd)
 			}
 		}
 	}
+	return out
+}
+
+// listFuncKeys parses the module and returns the key of every declared function.
+func listFuncKeys(dir string, overlay map[string][]byte) []string {
+	var keys []string
+	for k := range listFuncs(dir, overlay) {
+		keys = append(keys, k)
+	}
 	sort.Strings(keys)
 	return keys
+}
+
+// movedFuncs: functions of the pinned tree that are gone from the current tree but whose
+// body lives on, unchanged, under another name or receiver (rename / move / method <-> function).
+// old key -> new key.
+func movedFuncs(cur map[string]string) map[string]string {
+	byHash := map[string][]string{}
+	for k, h := range cur {
+		if _, base := baselineFuncs[k]; !base && h != "" {
+			byHash[h] = append(byHash[h], k)
+		}
+	}
+	out := map[string]string{}
+	for k, h := range baselineFuncs {
+		if _, still := cur[k]; still || h == "" {
+			continue
+		}
+		if c := byHash[h]; len(c) == 1 {
+			out[k] = c[0]
+		}
+	}
+	return out
 }
 
 type nEdit struct {
@@ -282,6 +334,26 @@ func (n *normalizer) visit(x ast.Node, gc *nGen, hs *nHoist, allow, cond bool) {
 		return
 	case *ast.BinaryExpr:
 		if e.Op == token.LAND || e.Op == token.LOR {
+			if allow && !cond && !hs.impure && n.depth <= 6 && n.hasHelperCall(e.Y) {
+				// a helper called in the right operand: spell the short-circuit out as statements
+				//   c := X; if c { c = Y }      (&&)        c := X; if !c { c = Y }      (||)
+				subX := &nHoist{}
+				n.visit(e.X, gc, subX, true, false)
+				n.uid++
+				cv := "__c" + strconv.Itoa(n.uid)
+				hs.pre.WriteString(subX.pre.String())
+				fmt.Fprintf(&hs.pre, "%s := %s; _ = %s\n", cv, n.splice(e.X.Pos(), e.X.End(), subX.edits), cv)
+				subY := &nHoist{}
+				n.visit(e.Y, gc, subY, true, false)
+				guard := cv
+				if e.Op == token.LOR {
+					guard = "!" + cv
+				}
+				fmt.Fprintf(&hs.pre, "if %s {\n%s%s = %s\n}\n", guard, subY.pre.String(), cv, n.splice(e.Y.Pos(), e.Y.End(), subY.edits))
+				hs.edits = append(hs.edits, nEdit{n.off(e.Pos()), n.off(e.End()), cv})
+				hs.impure = hs.impure || subX.impure || subY.impure
+				return
+			}
 			n.visit(e.X, gc, hs, allow, cond)
 			n.visit(e.Y, gc, hs, allow, true)
 			return
@@ -332,6 +404,23 @@ func (n *normalizer) visit(x ast.Node, gc *nGen, hs *nHoist, allow, cond bool) {
 	for _, c := range directChildren(x) {
 		n.visit(c, gc, hs, allow, cond)
 	}
+}
+
+// hasHelperCall: x contains a call of an inlinable helper (function literals not entered).
+func (n *normalizer) hasHelperCall(x ast.Node) bool {
+	found := false
+	ast.Inspect(x, func(c ast.Node) bool {
+		if _, isLit := c.(*ast.FuncLit); isLit {
+			return false
+		}
+		if ce, ok := c.(*ast.CallExpr); ok {
+			if h, _, _ := n.calleeOf(ce); h != nil {
+				found = true
+			}
+		}
+		return !found
+	})
+	return found
 }
 
 // pureCall: conversions and the side-effect-free builtins.
@@ -785,8 +874,13 @@ func (n *normalizer) stmt(s ast.Stmt, gc *nGen, allow bool) []nEdit {
 // Normalise computes the overlay (nil when nothing qualifies).
 func Normalise(dir string, overlay map[string][]byte, extraEnv []string) (*normResult, error) {
 	fresh := false
-	for _, k := range listFuncKeys(dir, overlay) {
-		if !baselineFuncs[k] {
+	cur := listFuncs(dir, overlay)
+	moved := map[string]bool{}
+	for _, nk := range movedFuncs(cur) {
+		moved[nk] = true
+	}
+	for k := range cur {
+		if _, base := baselineFuncs[k]; !base && !moved[k] {
 			fresh = true
 			break
 		}
@@ -804,7 +898,7 @@ func Normalise(dir string, overlay map[string][]byte, extraEnv []string) (*normR
 		if len(p.Errors) > 0 || p.TypesInfo == nil {
 			return nil, fmt.Errorf("package %s does not type-check", p.PkgPath)
 		}
-		if err := normalisePkg(dir, p, overlay, res); err != nil {
+		if err := normalisePkg(dir, p, overlay, res, moved); err != nil {
 			return nil, err
 		}
 	}
@@ -817,7 +911,7 @@ func Normalise(dir string, overlay map[string][]byte, extraEnv []string) (*normR
 	return res, nil
 }
 
-func normalisePkg(dir string, p *packages.Package, overlay map[string][]byte, res *normResult) error {
+func normalisePkg(dir string, p *packages.Package, overlay map[string][]byte, res *normResult, moved map[string]bool) error {
 	n := &normalizer{dir: dir, fset: p.Fset, pkg: p, src: map[string][]byte{}, helpers: map[*types.Func]*nHelper{},
 		seen: map[*ast.Ident]bool{}, fails: map[*ast.Ident]map[*ast.FuncDecl]bool{}, notes: map[string]bool{}, inlined: map[string]bool{}, needImp: map[string]map[string]string{}}
 	universe := types.Universe
@@ -837,7 +931,7 @@ func normalisePkg(dir string, p *packages.Package, overlay map[string][]byte, re
 			if !ok || fd.Body == nil || ast.IsExported(fd.Name.Name) || fd.Name.Name == "init" || fd.Name.Name == "main" || fd.Name.Name == "_" {
 				continue
 			}
-			if baselineFuncs[funcKey(dir, fn, fd)] || fd.Type.TypeParams != nil {
+			if _, base := baselineFuncs[funcKey(dir, fn, fd)]; base || moved[funcKey(dir, fn, fd)] || fd.Type.TypeParams != nil {
 				continue
 			}
 			obj, _ := p.TypesInfo.Defs[fd.Name].(*types.Func)
